@@ -386,6 +386,10 @@ func reportOrderEvents(p *Program, r *Report, or *orderRun, rules orderRules) (n
 					}
 					a.bad, a.whyBad = e, fmt.Sprintf("a slice %s (%s; possible classes %s) reaches %s, which requires input sorted ascending", what, c.String(), e.A.String(), e.What)
 				}
+			} else if c, isConcat := e.A.hasConcat(); isConcat {
+				if a.bad == nil {
+					a.bad, a.whyBad = e, fmt.Sprintf("a sorted list with another sorted list appended behind it (%s; possible classes %s) reaches %s, which requires input sorted ascending: two ascending runs are one ascending list only if every element of the second is larger than every element of the first, which nothing here establishes (a merge or a sort would)", c.String(), e.A.String(), e.What)
+				}
 			} else {
 				a.okWhy = "argument classes " + e.A.String() + ": never the caller's order"
 			}
